@@ -176,9 +176,13 @@ func (t1 *Tasks) Merge(t2 *Tasks, include *Include, includedTaskfileVars *Vars) 
 				task.IncludeVars = NewVars()
 			}
 			task.IncludeVars.Merge(include.Vars, nil)
-			task.IncludedTaskfileVars = NewVars()
-			task.IncludedTaskfileVars.Merge(includedTaskfileVars, include)
 		}
+
+		// The task keeps the variables of its own Taskfile: the global
+		// variables of all Taskfiles end up in one set, where a sibling
+		// include may redefine them
+		task.IncludedTaskfileVars = NewVars()
+		task.IncludedTaskfileVars.Merge(includedTaskfileVars, include)
 
 		if _, ok := t1.Get(taskName); ok {
 			return &errors.TaskNameFlattenConflictError{
